@@ -16,6 +16,16 @@ _TRACE = []
 
 
 # ------------------------------------------------------------------ implementation side
+def embed(app, prefix, inner, rebind, inherit, index):
+    """the two documented spellings of one embedding, chosen by the prefix text: the options on the SubApplication, or
+    the options given to add() together with a plain (prefix, application) pair"""
+    from clastic import SubApplication
+    if sum(map(ord, prefix)) % 2:
+        app.add((prefix, inner), index, rebind_render=bool(rebind), inherit_slashes=bool(inherit))
+    else:
+        app.add(SubApplication(prefix, inner, rebind_render=bool(rebind), inherit_slashes=bool(inherit)), index)
+
+
 class Lab(object):
     def __init__(self):
         self.routes = {}       # key -> Route object
@@ -109,7 +119,12 @@ class Lab(object):
         kw = {}
         if d['methods'] is not None:
             kw['methods'] = d['methods']
-        rt = Route(d['pattern'], ns['ep'], self.render_obj(d['render']), middlewares=[self.mw(m) for m in d['mws']],
+        mws = [self.mw(m) for m in d['mws']]
+        if k % 3 == 1:
+            mws = iter(mws)                   # any iterable will do for the argument: a filter(), a generator expression
+        elif k % 3 == 2:
+            mws = tuple(mws)
+        rt = Route(d['pattern'], ns['ep'], self.render_obj(d['render']), middlewares=mws,
                    resources=dict(d['resources']), slash_mode=d['mode'], **kw)
         self.routes[k] = rt
         self.decls[k] = d
@@ -132,7 +147,7 @@ class Lab(object):
         else:
             _, prefix, env, entries, rebind, inherit = e
             inner = self.make_app(env, entries)
-            app.add(SubApplication(prefix, inner, rebind_render=bool(rebind), inherit_slashes=bool(inherit)), index)
+            embed(app, prefix, inner, rebind, inherit, index)
 
     # ---- observation
     def render_repr(self, r):
@@ -176,6 +191,8 @@ def probe_paths(patterns):
         for x in (s, s.rstrip('/') + '//' if s != '/' else '/', s.rstrip('/') or '/', inner_doubled):
             if x not in paths:
                 paths.append(x)
+        if '.' in s and s.replace('.', 'x') not in paths:
+            paths.append(s.replace('.', 'x'))         # a mount point is text like any other part of a pattern
     paths.append('/definitely/not/there')
     return paths
 
@@ -210,8 +227,7 @@ def impl(case):
             elif op[0] == 'embed':
                 from clastic import SubApplication
                 _, target, prefix, src, rebind, inherit, index = op
-                lab.apps[target].add(SubApplication(prefix, lab.apps[src], rebind_render=bool(rebind),
-                                                    inherit_slashes=bool(inherit)), index)
+                embed(lab.apps[target], prefix, lab.apps[src], rebind, inherit, index)
             rec['obs'] = 'ok'
         except LookupError:
             rec['obs'] = 'nosuchapp'
@@ -433,8 +449,14 @@ def entry_keys(e, trees=None):
 def oracle_c11(case, steps):
     prev_world, prev_probes = {}, {}
     first_state = {}
+    handler_of = dict((str(op[1]['id']), str(op[1]['handler'])) for op in case['ops'] if op[0] == 'new')
     for n, (op, st) in enumerate(zip(case['ops'], steps)):
         what = 'step %d %s' % (n, op[0])
+        for aid, probes in (st.get('probes') or {}).items():
+            for pr in probes:
+                if pr[1] == '/definitely/not/there' and pr[2] == 404 and aid in handler_of and pr[4] != handler_of[aid]:
+                    return ('%s: the 404 of application %s for an unknown URL was rendered by error handler %s; its own is %s'
+                            % (what, aid, pr[4], handler_of[aid]), 'foreign-handler')
         for aid, state in (st.get('appstate') or {}).items():
             if aid in first_state and state != first_state[aid]:
                 return ('%s: application %s was constructed with middlewares / resources / slash mode %s and now has %s'
@@ -578,7 +600,7 @@ class Gen(object):
                 inner['resources'] = [[nm if (nm in getattr(self, 'top_names', ()) and r.random() < 0.5) else nm + str(inner['id']), v]
                                       for nm, v in inner['resources']]
                 sub = self.entries(inner, depth - 1, avail + [nm for nm, _ in inner['resources']], 2, f)
-                prefix = r.choice(['/p%d' % inner['id'], '/p%d/' % inner['id'], '/', '/<pre>' if f == 'prefix' else '/s'])
+                prefix = r.choice(['/p%d' % inner['id'], '/p%d/' % inner['id'], '/', '/<pre>' if f == 'prefix' else '/s', '/v1.%d' % inner['id']])
                 out.append(['sub', prefix, inner, sub, r.random() < 0.4, r.random() < 0.6])
             else:
                 out.append(['route', self.rdecl(avail, f), r.random() < 0.75])
@@ -615,7 +637,7 @@ class Gen(object):
                     b2 = r.choice([x for x in live if x is not a])      # self-embedding stays in, but rarely
                 if size.get(a['id'], 0) + size.get(b2['id'], 0) > 150:
                     continue              # finite, but far beyond what a case may cost: the table would double again
-                ops.append(['embed', a['id'], r.choice(['/m%d' % b2['id'], '/m/', '/']), b2['id'], r.random() < 0.3, r.random() < 0.6,
+                ops.append(['embed', a['id'], r.choice(['/m%d' % b2['id'], '/m/', '/', '/api.v%d' % b2['id']]), b2['id'], r.random() < 0.3, r.random() < 0.6,
                             r.choice([None, None, 0, 1, -1])])
                 size[a['id']] = size.get(a['id'], 0) + size.get(b2['id'], 0)
         return {'ops': ops}
@@ -716,7 +738,10 @@ def run(prop, rep, b, tier, seed, only_cases=None):
         v = orc(c, steps)
         if v:
             rep.violation(v[0], {'case': c, 'signature': v[1], 'lab': 'worldlab'})
-        if model_out is not None:
+        dotted = '/v1.' in json.dumps(c['ops']) or '/api.v' in json.dumps(c['ops'])
+        if dotted:
+            rep.count('prefix_with_dot (outside the World model: oracles only)')
+        if model_out is not None and not dotted:
             try:
                 ms = model_steps(model_out[i])
             except Exception as e:  # noqa
